@@ -42,6 +42,8 @@ type episode struct {
 	everSched map[int]bool
 	last      []core.Duty // duties received in the most recent op
 	noTimer   int         // number of times no timer was armed at quiescence
+	addBlocked bool       // Add did not return (reported once, the episode is abandoned)
+	addBlockedReported bool
 }
 
 func dutyID(d core.Duty) int { return int(d.Slot)*16 + int(d.Type) }
@@ -109,9 +111,21 @@ func (e *episode) deadlineMs(d core.Duty) int64 {
 // timer for a future instant is armed (a timer with non-positive duration fires at once and is
 // never a waiter).
 func (e *episode) sync() {
-	st := e.dl.Add(core.NewVoluntaryExit(0))
-	if st != core.DeadlineExempt {
-		panic("ping not exempt")
+	if e.addBlocked {
+		return
+	}
+	// Add must always be answered: every component calls it on its hot path (dutydb even under its
+	// own lock). A deadliner that blocks while its output buffer is full stalls them all.
+	ans := make(chan core.DeadlineStatus, 1)
+	go func() { ans <- e.dl.Add(core.NewVoluntaryExit(0)) }()
+	select {
+	case st := <-ans:
+		if st != core.DeadlineExempt {
+			panic("ping not exempt")
+		}
+	case <-time.After(5 * time.Second):
+		e.addBlocked = true
+		return
 	}
 	// A correct deadliner always keeps one timer armed (at least the year-9999 sentinel). If none
 	// appears the implementation lost its timer: carry on, the monitors report what follows from it.
@@ -143,6 +157,13 @@ func (e *episode) drain() []core.Duty {
 func (e *episode) observe(run *hx.Run, due int) string {
 	before := e.noTimer
 	e.sync()
+	if e.addBlocked {
+		if !e.addBlockedReported {
+			e.addBlockedReported = true
+			run.Violate("deadliner:add_blocked", fmt.Sprintf("Add did not return within 5s (%d expired duties unread on C(), buffer capacity %d): callers of Add are stalled", due, bufCap))
+		}
+		return "blocked"
+	}
 	if e.noTimer > before && before == 0 {
 		run.Violate("deadliner:no_timer_armed", "the deadliner has no timer armed after handling an operation (pending duties can no longer be reported)")
 	}
@@ -253,7 +274,22 @@ func (e *episode) doAdd(run *hx.Run, slot uint64, ty int) string {
 	id := dutyID(d)
 	dlm := e.deadlineMs(d)
 	now := e.nowMs()
-	st := e.dl.Add(d)
+	if e.addBlocked {
+		return "blocked"
+	}
+	ansc := make(chan core.DeadlineStatus, 1)
+	go func() { ansc <- e.dl.Add(d) }()
+	var st core.DeadlineStatus
+	select {
+	case st = <-ansc:
+	case <-time.After(5 * time.Second):
+		e.addBlocked = true
+		if !e.addBlockedReported {
+			e.addBlockedReported = true
+			run.Violate("deadliner:add_blocked", fmt.Sprintf("Add(%v) did not return within 5s: callers of Add are stalled", d))
+		}
+		return "blocked"
+	}
 	run.Count("add:" + statusStr(st))
 	switch {
 	case dlm < 0:
@@ -344,6 +380,9 @@ func main() {
 			burstAt = rng.Intn(nops)
 		}
 		for k := 0; k < nops; k++ {
+			if ep.addBlocked {
+				break // the deadliner of this episode is stuck: start a new one
+			}
 			if k == burstAt {
 				// overflow probe: more than bufCap duties expire while the consumer is not reading (many of
 				// them sharing a deadline); the duties above the buffer capacity are dropped, and everything
